@@ -12,11 +12,12 @@ import (
 )
 
 // Value is one of:
-//   *term.T   (bool, integer bit-vectors, floats)
-//   string    (concrete Go string)
-//   *SymStr   (bounded symbolic string)
-//   *StructV, *ArrayV, TupleV
-//   *PtrV, *AddrV, *SliceV, *MapV, *ChanV, *FuncV, *IfaceV, *RTypeV, *ModelV
+//
+//	*term.T   (bool, integer bit-vectors, floats)
+//	string    (concrete Go string)
+//	*SymStr   (bounded symbolic string)
+//	*StructV, *ArrayV, TupleV
+//	*PtrV, *AddrV, *SliceV, *MapV, *ChanV, *FuncV, *IfaceV, *RTypeV, *ModelV
 type Value interface{}
 
 // Object is a mutable heap cell.
@@ -29,6 +30,9 @@ type Object struct {
 	Setup bool
 	// Ghost objects belong to harness code (never race-checked).
 	Ghost bool
+	// Frozen objects are copies of goroutine-local cells captured by a spawned
+	// goroutine (BMC): read-only.
+	Frozen bool
 }
 
 type StructV struct{ F []Value }
@@ -56,8 +60,8 @@ func (p *PtrV) IsNil() bool { return p.Obj == nil && p.Arena == nil }
 // AddrV is the integer image of a pointer (unsafe.Pointer -> uintptr).
 type AddrV struct {
 	Obj  *Object
-	Path []int // path of the original pointer
-	Off  int64 // byte offset added to it
+	Path []int   // path of the original pointer
+	Off  int64   // byte offset added to it
 	Sym  *term.T // symbolic byte offset added to it (layout-symbolic mode)
 	Nil  bool
 }
@@ -127,11 +131,11 @@ type Chan struct {
 
 // Arena is a bounded pool of objects of one type allocated by running goroutines (BMC).
 type Arena struct {
-	Name  string
-	T     types.Type
-	Slots []*Object
-	Fn    string   // only Alloc sites in functions whose name contains this allocate here
-	Next  *term.T  // allocation counter (state variable)
+	Name   string
+	T      types.Type
+	Slots  []*Object
+	Fn     string    // only Alloc sites in functions whose name contains this allocate here
+	Next   *term.T   // allocation counter (state variable)
 	Pooled []*term.T // per slot: sits in a sync.Pool (only with job parameter pool=1, for pointer-free reuse modelling)
 }
 
@@ -462,6 +466,9 @@ func (m *Machine) store(p *PtrV, v Value) {
 		}
 		m.setObjVal(p.Obj, ov)
 		return
+	}
+	if p.Obj.Frozen || m.escaped[p.Obj] {
+		unsupported("store into a cell that a spawned goroutine captured from its parent's locals (%s)", p.Obj.T)
 	}
 	m.noteWrite(p.Obj, p.Path)
 	m.setObjVal(p.Obj, setPath(m.objVal(p.Obj), p.Path, v))
